@@ -289,6 +289,10 @@ def _equal(I, l: Any, r: Any, st, lexpr, rexpr) -> list:
         return _fork(st)
     if (l is None) != (r is None):
         other = r if l is None else l
+        if isinstance(other, Opaque) and other.cls.startswith("ext:") and other.cls.endswith("()"):
+            # result of a call into a library we do not model: may well be None (re.match, dict.get, ...)
+            st.note(f"None-ness of library call result {other.cls}")
+            return _fork(st)
         if isinstance(other, (Ref, Opaque, Text, SeqStr, CharSet, FuncV, ClassV, EnumV, IntSet, LambdaV, Term, BoundV)):
             return [(False, st)]
         return _fork(st)
